@@ -54,6 +54,16 @@ Theorem C08_offsetmap_invariant :
 Proof. exact (conj om_wf_nil (conj om_set_wf precomputed_wf)). Qed.
 Print Assumptions C08_offsetmap_invariant.
 
+(* ---- the hash range sha3_data enforces (concrete hashes) / assumes (symbolic hashes) leaves
+   room for every offset below the dynamic-array bound of match_dynamic_array_overflow_condition:
+   hash + offset is never 0 and never wraps *)
+Theorem C08_hash_range :
+  (forall h off, 0 <= h -> sha3_hash_out_of_range h = false -> 0 <= off < dyn_array_max_offset ->
+     0 < h + off < 2 ^ 256) /\
+  (forall h off, 0 < h <= sha3_sym_upper -> 0 <= off < dyn_array_max_offset -> 0 < h + off < 2 ^ 256).
+Proof. exact (conj range_no_wrap sym_range_no_wrap). Qed.
+Print Assumptions C08_hash_range.
+
 (* ---- last write wins on decoded locations (chunk id + key), for every key/value type,
    every sound oracle (Exec.check answering unsat only when it is), every store chain,
    symbolic or empty initial storage *)
@@ -148,9 +158,51 @@ Theorem C08_generic_negative_offset_refuted :
 Proof. exact generic_negative_witness. Qed.
 Print Assumptions C08_generic_negative_offset_refuted.
 
+(* ---- REFUTED (solidity layout): "no aliasing" for mappings with variable-length keys.
+   m[hex"ab"][hex"00cd"] and m[hex"ab00"][hex"cd"] (m at slot 1, key bytes symbolic) are
+   distinct EVM slots but decode to the same chunk with the same concatenated key. *)
+Theorem C08_mixed_width_keys_refuted :
+  exists k1 k2,
+    sol_decode reg_empty mixed1 = Ok ((1, 4, 536), k1) /\
+    sol_decode reg_empty mixed2 = Ok ((1, 4, 536), k2) /\
+    sol_kden env_mixed k1 = sol_kden env_mixed k2 /\
+    eval Hkeccak env_mixed mixed1 <> eval Hkeccak env_mixed mixed2.
+Proof. exact mixed_width_witness. Qed.
+Print Assumptions C08_mixed_width_keys_refuted.
+
 (* non-vacuity: the solidity layout does recognise that spelling (the key is 0 for n = 1),
    and C08_raw's hypotheses are satisfiable with a non-trivial oracle *)
 Example C08_nonvacuous :
   sol_decode reg_empty (Add [K (h4 - 1); V 0]) = Ok ((4, 1, 256), [KW [K 0; K (2 ^ 256 - 1); V 0]]) /\
   sol_kden env1 [KW [K 0; K (2 ^ 256 - 1); V 0]] = 0.
 Proof. exact solidity_negative_ok. Qed.
+
+(* non-vacuity of C08_sequences: a concrete family (scalar, mapping element with a struct
+   offset, one array element in two spellings: precomputed constant + index, index +
+   run-time hash) on which the real solidity decoder is faithful under real Keccak, and a
+   store/load sequence over it *)
+Example C08_sequences_nonvacuous :
+  faithful_on (list kt) sol_kden Hkeccak (sol_decode reg_empty) env1 fam_ex /\
+  model_run (list kt) Z sol_kden evalZ orc_ex init0 (sol_decode reg_empty) env1 (st_empty (list kt) Z)
+    [OStore (Add [K h2; V 1]) 7; OStore (K 0) 8; OLoad (Add [V 1; Sha256 (K 2)]);
+     OStore (Add [Sha512 (V 0) (K 1); K 1]) 9; OLoad (K 0); OLoad (Add [K h2; V 1]); OLoad (Add [Sha512 (V 0) (K 1); K 1])]
+  = [7; 8; 7; 9].
+Proof. exact (conj fam_ex_faithful seq_example). Qed.
+
+(* ---- REFUTED (solidity layout): same-location recognition for mappings with narrow
+   (bytes/string) keys when one access has a concrete key and the other a symbolic one *)
+Theorem C08_narrow_constant_key_refuted :
+  exists R, register reg_empty narrow_entry = Ok R /\
+    eval Hkeccak env0 (K (Hkeccak 272 narrow_pre)) = eval Hkeccak env0 (ShaN 16 (NKv 1) (K 5)) /\
+    sol_decode R (K (Hkeccak 272 narrow_pre)) = Ok ((Hkeccak 272 narrow_pre, 0, 0), []) /\
+    sol_decode R (ShaN 16 (NKv 1) (K 5)) = Ok ((5, 2, 272), [KN 16 (NKv 1); KW [K 0]]).
+Proof. exact narrow_constant_witness. Qed.
+Print Assumptions C08_narrow_constant_key_refuted.
+
+(* ---- REFUTED (generic layout): "no aliasing" when a mapping key is itself a hash *)
+Theorem C08_generic_hash_key_refuted :
+  eval Hkeccak env0 (Sha512 (Sha256 (K 2)) (K 0)) <> eval Hkeccak env0 (Sha256 (Sha512 (K 2) (K 0))) /\
+  decode_gen precomputed reg_empty env0 FUEL (Sha512 (Sha256 (K 2)) (K 0)) = Ok (1026, 2 * 2 ^ 770) /\
+  decode_gen precomputed reg_empty env0 FUEL (Sha256 (Sha512 (K 2) (K 0))) = Ok (1026, 2 * 2 ^ 770).
+Proof. exact generic_hash_key_witness. Qed.
+Print Assumptions C08_generic_hash_key_refuted.
